@@ -94,7 +94,7 @@ def main(mod, argv=None):
                 if bad or not r['canaries']:
                     raise ToolTrouble('vacuity: canary of %s did not fail (unsatisfiable precondition or unreachable end)' % j.name)
             if j.kind == 'contract' and j.loop_contracts and j.unwind is None:
-                nl = j.info.get('loops', 0)
+                nl = j.info.get('contract_loops', 0)
                 steps = len([o for o in r['obligations'] if o['class'] == 'loop_invariant_step'])
                 if steps < nl:
                     raise ToolTrouble('job %s: %d loops but only %d loop_invariant_step obligations (dropped loop contract?)' % (j.name, nl, steps))
